@@ -615,7 +615,7 @@ func (cx *caseCtx) judge(rn, phase string, spec chainSpec, resp *opdrv.Resp, sl 
 	if ok == nil {
 		m := matched[0]
 		why := m.Why
-		if m.GlobErr && phase == "authorize" && errCode == "server_error" {
+		if m.GlobErr && phase == "authorize" && errCode == "server_error" && spec.AuthFault == nil && spec.RO == nil && spec.Trigger != "request-junk" {
 			// D20: a malformed opted-in pattern made the match itself fail, and that failure was redirected
 			why = "glob-match-error"
 		}
